@@ -104,6 +104,7 @@ class TLCResult:
 
 
 _tlc_seq = [0]
+_seq_lock = __import__("threading").Lock()
 
 
 def tlc(specdir, module, cfg, workers=None, timeout=900, simulate=None, depth=None, seed=None,
@@ -112,8 +113,10 @@ def tlc(specdir, module, cfg, workers=None, timeout=900, simulate=None, depth=No
     """Run TLC on a scratch copy of specdir.  files: {name: path-or-bytes} extra
     files copied next to the spec (trace inputs).  Returns TLCResult; raises
     Inconclusive when TLC itself fails (parse error, timeout, OOM, crash)."""
-    _tlc_seq[0] += 1
-    d = scratch("tlc-%d-%s" % (_tlc_seq[0], module))
+    with _seq_lock:
+        _tlc_seq[0] += 1
+        seq = _tlc_seq[0]
+    d = scratch("tlc-%d-%s" % (seq, module))
     for f in os.listdir(specdir):
         if f.endswith((".tla", ".cfg")):
             shutil.copy(os.path.join(specdir, f), d)
